@@ -32,6 +32,8 @@ type Contract struct {
 	Cases      []*Clause // cover: each must be satisfiable together with the requires
 	Trusted    bool
 	Nilable    map[string]bool
+	CallsEns   map[string][]*Clause // assumed results of callbacks (result0, result1, ...)
+	Calls      map[string][]*Clause // function-typed parameter -> requirements on its arguments (arg0, arg1, ...)
 }
 
 type Clause struct {
@@ -104,6 +106,23 @@ func (w *World) parseContractFile(pkgShort, filename string, file *ast.File, p *
 					cur.Pattern = re
 					w.Contracts[cur.Key] = cur
 				}
+			case "inv":
+				finish()
+				// inv (*T) label: expr   -- type invariant, assumed for (and required from callers of) every method of T
+				rt, r2 := splitWord(rest)
+				cl := &Clause{Kind: "inv", Line: line}
+				if m := labelRe.FindStringSubmatch(r2); m != nil {
+					cl.Label = m[1]
+					r2 = strings.TrimSpace(r2[len(m[0]):])
+				}
+				ex, err := ParseExpr(r2)
+				if err != nil {
+					return fmt.Errorf("%s:%d: %v", filename, line, err)
+				}
+				cl.Expr, cl.Text = ex, r2
+				key := canonKey(pkgShort, rt+".x")
+				key = key[:len(key)-2]
+				w.TypeInvs[key] = append(w.TypeInvs[key], cl)
 			case "spec":
 				finish()
 				sf, err := parseSpec(rest)
@@ -221,6 +240,25 @@ func (c *Contract) addClause(word, rest string, line int) error {
 				}
 				c.Assigns = append(c.Assigns, &Clause{Kind: "assigns", Text: part, Expr: ex, Line: line})
 			}
+		}
+	case "calls":
+		// calls <param> requires <expr over arg0..>
+		pn, r := splitWord(rest)
+		kw, r2 := splitWord(r)
+		if kw != "requires" && kw != "ensures" {
+			return fmt.Errorf("calls <param> requires|ensures <expr>")
+		}
+		if err := parseLabeled(r2); err != nil {
+			return err
+		}
+		if c.Calls == nil {
+			c.Calls = map[string][]*Clause{}
+			c.CallsEns = map[string][]*Clause{}
+		}
+		if kw == "requires" {
+			c.Calls[pn] = append(c.Calls[pn], cl)
+		} else {
+			c.CallsEns[pn] = append(c.CallsEns[pn], cl)
 		}
 	case "nilable":
 		if c.Nilable == nil {
